@@ -68,11 +68,24 @@ def rust_locale(name):
     return "Locale::" + name.replace("-", "_")
 
 
-def call_args(args, view):
+def comp_expr(expr, view, variant):
+    """the documented ways of supplying a component that renders as <expr>children</expr> (rotated by call id)"""
+    if view:
+        forms = ["<%s/>" % expr,
+                 "|children: leptos::children::ChildrenFn| leptos::view! { <%s>{children()}</%s> }" % (expr, expr)]
+    else:
+        forms = ['"%s"' % expr,
+                 'String::from("%s")' % expr,
+                 'leptos_i18n::display::DisplayComp::new("%s", &[])' % expr,
+                 '|f: &mut core::fmt::Formatter, ch: &dyn Fn(&mut core::fmt::Formatter) -> core::fmt::Result| { write!(f, "<%s>")?; ch(f)?; write!(f, "</%s>") }' % (expr, expr)]
+    return forms[variant % len(forms)]
+
+
+def call_args(args, view, variant=0):
     out = []
-    for kind, name, expr in args:
+    for n, (kind, name, expr) in enumerate(args):
         if kind == "comp":
-            out.append("<%s> = %s" % (name, ("<%s/>" % expr) if view else ('"%s"' % expr)))
+            out.append("<%s> = %s" % (name, comp_expr(expr, view, variant + n)))
         else:
             out.append("%s = %s" % (name, expr))
     return "".join(", " + a for a in out)
@@ -87,15 +100,15 @@ def call_source(c):
     path = ".".join(c["path"])
     loc = rust_locale(c["locale"])
     if flav in ("td_string", "td_display"):
-        return "    emit(%d, || %s!(%s, %s%s).to_string());" % (i, flav, loc, path, call_args(c["args"], False))
+        return "    emit(%d, || %s!(%s, %s%s).to_string());" % (i, flav, loc, path, call_args(c["args"], False, c["id"]))
     if flav == "td":
-        return "    emit(%d, || render(%s!(%s, %s%s)));" % (i, flav, loc, path, call_args(c["args"], True))
+        return "    emit(%d, || render(%s!(%s, %s%s)));" % (i, flav, loc, path, call_args(c["args"], True, c["id"]))
     if flav in ("t_string", "t_display", "tu_string", "tu_display"):
         return "    emit(%d, || { CTX.with(|c| c.get()).unwrap().set_locale(%s); %s!(CTX.with(|c| c.get()).unwrap(), %s%s).to_string() });" % (
-            i, loc, flav, path, call_args(c["args"], False))
+            i, loc, flav, path, call_args(c["args"], False, c["id"]))
     if flav in ("t", "tu"):
         return "    emit(%d, || { CTX.with(|c| c.get()).unwrap().set_locale(%s); render(%s!(CTX.with(|c| c.get()).unwrap(), %s%s)) });" % (
-            i, loc, flav, path, call_args(c["args"], True))
+            i, loc, flav, path, call_args(c["args"], True, c["id"]))
     if flav == "raw":
         return "    emit(%d, || { %s });" % (i, c["rust"])
     raise vp.ToolError("unknown flavour %s" % flav)
